@@ -135,14 +135,21 @@ def leaf_spec(kinds=None, depth=1, required=None):
             if depth > 0:
                 keyf = st.one_of(st.none(), leaf_spec(["str", "loglevel", "host", "ipv4"], 0, required=False), leaf_spec(["str"], 0, required=False))
                 valf = st.one_of(st.none(), leaf_spec([k for k in SCALAR_KINDS if k != "appmode"] + ["secure", "challenge"], depth - 1), leaf_spec(["int", "bytes", "bool"], depth - 1))
-                base["keyf"] = keyf
-                base["valuef"] = valf
+                # both / none typed: an untyped dict must stay common enough to be exercised
+                pair = st.one_of(st.tuples(keyf, valf), st.tuples(keyf, valf), st.just((None, None)))
+                base["_kv"] = pair
             else:
                 base["keyf"] = st.none()
                 base["valuef"] = st.none()
         else:
             raise AssertionError(kind)
-        return D(base)
+
+        def unpack(d):
+            if "_kv" in d:
+                d = dict(d)
+                d["keyf"], d["valuef"] = d.pop("_kv")
+            return d
+        return D(base).map(unpack)
 
     return st.sampled_from(kinds).flatmap(for_kind)
 
